@@ -1182,7 +1182,10 @@ impl<K: CKind> St<K> {
                     Some(t) => K::table(t).map(|t| (0..=*var).all(|u| model::fam_subset1(t, u, n) == 0)).unwrap_or(false),
                     None => false,
                 };
-                if !below(&hi) || !below(&lo) {
+                // (with an invalid operand the call is made all the same: the result is invalid and the
+                //  documented ownership transfer of the valid operand must still happen)
+                let any_invalid = !hi.valid() || !lo.valid();
+                if !any_invalid && (!below(&hi) || !below(&lo)) {
                     return Step::Disabled;
                 }
                 let sv = self.core.fcall(ctx, &Op::Singleton(*var), &[]);
